@@ -419,6 +419,11 @@ class Fill(CellModifierInput):
                     if not isinstance(old_number, Jump):
                         cell._fill._old_number = old_number
             for cell in self._problem.cells:
+                trans_number = cell._fill.old_transform_number
+                if trans_number and trans_number not in self._problem.transforms.numbers:
+                    raise BrokenObjectLinkError(
+                        "Cell", cell.number, "Transform", trans_number
+                    )
                 cell._fill.push_to_cells()
 
     def _clear_data(self):
